@@ -1137,3 +1137,157 @@ func checkCountdownExpiry(c *core.Ctx, st *core.RuleStat, rule string, pi *PkgIn
 		}
 	}
 }
+
+// checkProgressAccumulated: a tick reports progress when any of its steps made progress. Where a
+// function with a bool result collects that answer in a loop (over contexts, ports, banks,
+// queues), the collected value must not forget earlier iterations: the value carried around the
+// loop (the phi at the loop header that reaches the return) is, on the back edge, derived from
+// itself (p = step() || p). A plain assignment p = step() keeps only the last iteration's answer:
+// the component reports no progress, is not ticked again, and work that an earlier iteration
+// started (requests queued for sending) is never continued.
+func checkProgressAccumulated(c *core.Ctx, st *core.RuleStat, rule string, pi *PkgInfo, what string) {
+	for _, fn := range pi.Funcs {
+		res := fn.Signature.Results()
+		if res.Len() < 1 {
+			continue
+		}
+		if bt, ok := res.At(0).Type().Underlying().(*types.Basic); !ok || bt.Kind() != types.Bool {
+			continue
+		}
+		for _, b := range fn.Blocks {
+			for _, in := range b.Instrs {
+				phi, ok := in.(*ssa.Phi)
+				if !ok {
+					break
+				}
+				if bt, ok := phi.Type().Underlying().(*types.Basic); !ok || bt.Kind() != types.Bool {
+					continue
+				}
+				// a loop header phi: some edge comes from a block the header dominates
+				var back []ssa.Value
+				for i, p := range b.Preds {
+					if b.Dominates(p) {
+						back = append(back, phi.Edges[i])
+					}
+				}
+				if len(back) == 0 {
+					continue
+				}
+				// does the phi reach the return value?
+				reachesReturn := false
+				seen := map[ssa.Value]bool{}
+				var fwd func(v ssa.Value, d int)
+				fwd = func(v ssa.Value, d int) {
+					if seen[v] || d > 8 || v.Referrers() == nil {
+						return
+					}
+					seen[v] = true
+					for _, r := range *v.Referrers() {
+						switch x := r.(type) {
+						case *ssa.Return:
+							reachesReturn = true
+						case *ssa.Phi:
+							fwd(x, d+1)
+						case *ssa.BinOp:
+							fwd(x, d+1)
+						case *ssa.UnOp:
+							fwd(x, d+1)
+						case *ssa.Store:
+							// a result spilled to a local (functions with defer)
+							if al, ok := x.Addr.(*ssa.Alloc); ok && al.Referrers() != nil {
+								for _, rr := range *al.Referrers() {
+									if ld, ok := rr.(*ssa.UnOp); ok && ld.Op == token.MUL {
+										fwd(ld, d+1)
+									}
+								}
+							}
+						}
+					}
+				}
+				fwd(phi, 0)
+				if !reachesReturn {
+					continue
+				}
+				st.Instances++
+				c.MarkAnalysed(fn)
+				ok = true
+				for _, v := range back {
+					dseen := map[ssa.Value]bool{}
+					var dep func(v ssa.Value, d int) bool
+					dep = func(v ssa.Value, d int) bool {
+						if v == ssa.Value(phi) {
+							return true
+						}
+						if dseen[v] || d > 10 {
+							return false
+						}
+						dseen[v] = true
+						switch x := v.(type) {
+						case *ssa.Phi:
+							for _, e := range x.Edges {
+								if dep(e, d+1) {
+									return true
+								}
+							}
+						case *ssa.BinOp:
+							return dep(x.X, d+1) || dep(x.Y, d+1)
+						case *ssa.UnOp:
+							return dep(x.X, d+1)
+						}
+						return false
+					}
+					// acceptable back-edge values: derived from the carried value, the constant true,
+					// merges of acceptable values, and a short-circuit p || step() / step() || p, whose
+					// phi has the constant on the edge of the operand that was true
+					var good func(v ssa.Value, d int) bool
+					good = func(v ssa.Value, d int) bool {
+						if d > 8 {
+							return false
+						}
+						if k, isC := v.(*ssa.Const); isC && k.Value != nil && k.Value.Kind() == constant.Bool && constant.BoolVal(k.Value) {
+							return true
+						}
+						if dep(v, 0) {
+							return true
+						}
+						x, isPhi := v.(*ssa.Phi)
+						if !isPhi {
+							return false
+						}
+						if x.Comment == "||" {
+							for i, e := range x.Edges {
+								if _, isC := e.(*ssa.Const); isC {
+									pred := x.Block().Preds[i]
+									if iff, ok := pred.Instrs[len(pred.Instrs)-1].(*ssa.If); ok && dep(iff.Cond, 0) {
+										return true
+									}
+								} else if good(e, d+1) {
+									return true
+								}
+							}
+							return false
+						}
+						for _, e := range x.Edges {
+							if !good(e, d+1) {
+								return false
+							}
+						}
+						return true
+					}
+					if !good(v, 0) {
+						ok = false
+					}
+				}
+				st.Ob(ok)
+				name := phi.Comment
+				if name == "" {
+					name = phi.Name()
+				}
+				st.Sample("%s: the answer collected in %s keeps earlier iterations: %v", core.FuncName(fn), name, ok)
+				if !ok {
+					c.ReportAt(rule, fn, phi.Pos(), "progress-overwritten:"+core.FuncName(fn)+":"+name, core.FuncName(fn)+" assigns "+name+" anew in every iteration of a loop and returns it: only the last iteration's answer survives. "+what)
+				}
+			}
+		}
+	}
+}
